@@ -203,6 +203,14 @@ Section OrderLaws.
   Definition swo_b (lt : item -> item -> bool) : bool :=
     all2 (fun a b => implb (lt a b) (negb (lt b a))) &&
     all3 (fun a b d => implb (lt a d) (lt a b || lt b d)).
+  (* the two halves of swo_b, so that each can be a law of its own *)
+  Definition asym_b (lt : item -> item -> bool) : bool :=
+    all2 (fun a b => implb (lt a b) (negb (lt b a))).
+  Definition negtrans_b (lt : item -> item -> bool) : bool :=
+    all3 (fun a b d => implb (lt a d) (lt a b || lt b d)).
+  Lemma swo_b_split : forall lt, swo_b lt = asym_b lt && negtrans_b lt.
+  Proof. reflexivity. Qed.
+
   (* items with different UIDs are ordered one way or the other *)
   Definition total_b (lt : item -> item -> bool) : bool :=
     all2 (fun a b => (i_uid a =? i_uid b) || lt a b || lt b a).
@@ -227,6 +235,19 @@ Section OrderLaws.
   (* full strength for tasks: no guard on the pod indexes *)
   Definition law_task_order_full (ts : layout (item -> item -> Z)) (lt : item -> item -> bool) : bool :=
     implb (layout_valid_b ts) (swo_b lt && total_b lt).
+
+  (* law_task_order_full split: what no finding can excuse (asymmetry, totality) and
+     the negative-transitivity clause (the only one the CompareTask finding explains) *)
+  Definition law_task_order_asym_total (ts : layout (item -> item -> Z)) (lt : item -> item -> bool) : bool :=
+    implb (layout_valid_b ts) (asym_b lt && total_b lt).
+  Definition law_task_order_negtrans (ts : layout (item -> item -> Z)) (lt : item -> item -> bool) : bool :=
+    implb (layout_valid_b ts) (negtrans_b lt).
+  Lemma law_task_order_full_split : forall ts lt,
+    law_task_order_full ts lt = law_task_order_asym_total ts lt && law_task_order_negtrans ts lt.
+  Proof.
+    intros. unfold law_task_order_full, law_task_order_asym_total, law_task_order_negtrans.
+    rewrite swo_b_split. destruct (layout_valid_b ts), (asym_b lt), (negtrans_b lt), (total_b lt); reflexivity.
+  Qed.
 
   (* VictimQueueOrderFn on queues: first distinguishing victim comparator, else
      the reverse of the queue order; on distinct queues exactly one direction *)
